@@ -10,7 +10,7 @@ ENGINES = [
      "serves_properties": ["C08", "C15"],
      "kind_free_text": "Lean 4 model of the passthrough inode table / handle table / mount-fd count / descriptor ledger with theorems by induction over request histories (refinement to a client-side ledger, ledger invariant under any fault oracle); differential harness driving the real PassthroughFs through whole histories on a temp dir under {inode_file_handles}x{use_host_ino}x{no_open}x{no_opendir}, getattr probes on every number ever seen, H2 table sizes, /proc/self/fd counts, EMFILE injection by RLIMIT_NOFILE headroom"},
     {"name": "conc", "path": "lean/Fbr/Conc.lean lean/Fbr/ConcShow.lean lean/Fbr/Lemmas/Conc*.lean lean/Drv/Conc.lean harness/src/bin/conc.rs",
-     "serves_properties": ["C09"],
+     "serves_properties": ["C08", "C09"],
      "kind_free_text": "Lean 4 small-step model of concurrent do_lookup/forget_one with an invariant proved for any number of threads and any schedule; schedule-replay harness over hook H1 (threads parked at yield points, one released per step), random and exhaustive schedules"},
     {"name": "xport", "path": "lean/Fbr/Xport.lean lean/Fbr/XportSys.lean lean/Fbr/XportSpec.lean lean/Fbr/Lemmas/Xport*.lean lean/Drv/Xport.lean harness/src/bin/xport.rs harness/src/xscript.rs harness/src/vq.rs lean/Fbr/FileIo.lean lean/Fbr/Lemmas/FileIo.lean lean/Drv/FileIo.lean harness/src/bin/fileio.rs",
      "serves_properties": ["C04", "C17", "C20"],
